@@ -354,7 +354,7 @@ class SigmaString(SigmaType):
 
     def __add__(self, other: "SigmaString" | str | SpecialChars | Placeholder) -> "SigmaString":
         s = self.__class__()
-        if isinstance(other, self.__class__):
+        if isinstance(other, SigmaString):  # the result keeps the class (case sensitivity) of the left operand
             s.s = self.s + other.s
         elif isinstance(other, (str, SpecialChars, Placeholder)):
             s.s = self.s + [other]
